@@ -115,7 +115,7 @@ class ModuleGen(object):
         have_init = False
         for j in range(rng.randint(0, 5)):
             mk = rng.choice(['m', 'static', 'cls', 'prop', 'amethod', 'nestedcls', 'setter', 'deleter', 'wrapped', 'init',
-                             'ctxmethod'])
+                             'ctxmethod', 'setter_stacked'])
             if mk == 'init':
                 if have_init:
                     mk = 'm'
@@ -150,6 +150,16 @@ class ModuleGen(object):
                 self.doc('        ', layout='freeform', nblocks=1, forbid='property %s' % mk)
                 out.append('        pass')
                 out.append('')
+            elif mk == 'setter_stacked':
+                # a setter / deleter that carries a further dotted decorator above the accessor decorator
+                self.func('    ', 'r%d' % j, '%s.r%d' % (cn, j), True, deco='@property', nested=False)
+                acc = rng.choice(['setter', 'deleter'])
+                out.append('    @_ns.mark')
+                out.append('    @r%d.%s' % (j, acc))
+                out.append('    def r%d(self%s):' % (j, ', v' if acc == 'setter' else ''))
+                self.doc('        ', layout='freeform', nblocks=1, forbid='property %s below another decorator' % acc)
+                out.append('        pass')
+                out.append('')
             elif mk == 'nestedcls':
                 out.append('    class N%d:' % j)
                 self.doc('        ', layout='freeform', nblocks=1, forbid='nested class')
@@ -163,7 +173,7 @@ class ModuleGen(object):
         out = self.out
         out += ['import functools, os, contextlib', 'from os.path import join', 'from collections import OrderedDict', '',
                 'def _deco(f):', '    @functools.wraps(f)', '    def w(*a, **k):', '        return f(*a, **k)',
-                '    return w', '', 'def _cdeco(c):', '    return c', '']
+                '    return w', '', 'def _cdeco(c):', '    return c', '', 'class _ns:', '    mark = staticmethod(lambda f: f)', '']
         head = []
         if rng.random() < 0.5:
             save = self.out
